@@ -31,6 +31,9 @@ CHECKS = {
  "C17": dict(engine="muxhist", cat="exploration", ref="3.4",
    text="Same histories; refinement against the MuxModel: tables before the first unit, automatic PAT+PMT exactly when the accepted-call count reaches the period or RAI on the PCR PID, nowhere else except explicit WriteTables; PMT content = model stream list in insertion order with type/descriptors/PCR PID; PAT maps program 1 to the PMT PID; automatic PIDs unique and outside reserved ranges; version +1 mod 32 iff content changed.",
    note="Trusted: MuxModel transition rules (DESIGN App. A). Calls rejected for an invalid argument may or may not count towards the period (both accepted)."),
+ "C19": dict(engine="filters", cat="exploration", ref="3.11",
+   text="Reference streams are demuxed with simulator-owned callbacks that log every invocation with a deep copy of its arguments. Skipper predicates (PID set, counter value, PUSI, adaptation-field flags, seeded per-packet decisions, stateful every-n-th, skip-all, skip-none): NextPacket and NextData sequences must equal those of the stream with the selected packets deleted by the PacketChannel, the predicate must be consulted once per packet in order with header and adaptation field as the library parses them. Parsers: observer (output unchanged; groups non-empty, single PID, and on fault-free streams exactly the generated units), replacer / per-PID partial replacer (output is exactly the substituted data), failing (error wraps the callback's error, other groups unaffected).",
+   note="Trusted: reference multiplexer, PacketChannel deletion, logging callbacks. A failing parser never fails on PID 0; parser errors raised during the end-of-stream drain are logged by the library, not returned, which the property allows ('when one is returned')."),
  "C20": dict(engine="restart", cat="fault_enumeration", ref="3.12",
    text="Reference streams (PAT before PMTs, multi-section PSI units, PES units longer than 16 packets, and a crafted family where a PID is mid-unit after exactly 16k packets while another PID returns a datum per packet) are demuxed on a seekable SimReader with a seeded chunk plan and explicit or auto-detected size; for half of the streams Rewind is called after EVERY number j of NextData calls (0..total, exhaustive per stream), the rest run seeded scripts of repeated rewinds with NextPacket/NextData/mixed consumption. Rewind must return (0,nil) with the reader at offset 0 and the complete sequence after the last Rewind must equal a fresh Demuxer's.",
    note="Trusted: reference multiplexer; the fresh run of the same library is the reference (its own correctness is C02's subject). Scope: PAT precedes PMTs."),
